@@ -110,6 +110,16 @@ func genCase(prop string) func(t *rapid.T) Case {
 	}
 }
 
+// deadlineLike is a context whose Err() reports DeadlineExceeded once it is done.
+type deadlineLike struct{ context.Context }
+
+func (d deadlineLike) Err() error {
+	if d.Context.Err() != nil {
+		return context.DeadlineExceeded
+	}
+	return nil
+}
+
 type callInst struct {
 	id       int
 	tok      *mCall
@@ -804,6 +814,11 @@ func body(c *sched.Ctl, cs Case, v *ev.Verdict) {
 			consByLabel[cn.label] = cn
 			hm.Unlock()
 			ctx, cancel := context.WithCancel(context.Background())
+			if cn.id%3 == 1 {
+				// a context that ends like an expired deadline (Err() is DeadlineExceeded): the
+				// consumers document context.Canceled for a caller whose context is done
+				ctx = deadlineLike{ctx}
+			}
 			cn.cancel = cancel
 			if op.Pre {
 				cancel()
